@@ -4,6 +4,7 @@
    `pred`: `bi_binvert_p [u]` — the predicate R·U mod B^n = 1 on the implementation's output. -/
 import Mpir.Proto
 import Mpir.Model.Binvert
+import Mpir.Model.BinvertBdiv
 import Mpir.Ops.Hgcd
 import Mpir.Gen.Params
 namespace Mpir.Ops.Binvert
@@ -20,6 +21,17 @@ def handle : Handler
         let r := mpnBinvert thr.toNat dcthr.toNat mthr Fft.mulmod_2expp1_basecase nextSize (fun _ => 0) u
           (zeros n) (zeros (binvItch nextSize n))
         some (if r.2 then [.vec r.1] else [.vec r.1, .err "oob"])
+      else none
+  | "bi_dc_bdiv_q", [.vec n, .vec d] =>
+      -- dc_bdiv_q.c: ASSERT (dn >= 6), nn >= dn, dp[0] odd; the quotient modulo B^nn is unique
+      if d.length ≥ 6 && n.length ≥ d.length && d.headD 0 % 2 == 1 then
+        some [.vec (toLimbs n.length (bdivQVal (val n) (val d) n.length))]
+      else none
+  | "bi_dc_bdiv_qr_n", [.num thr, .vec n, .vec d] =>
+      let k := d.length
+      if k ≥ 2 && n.length = 2 * k && d.headD 0 % 2 == 1 && thr ≥ 0 then
+        let r := dcBdivQrN thr.toNat sbBdivQrVal k (val n) (val d) k
+        some [.vec (toLimbs k r.1), .vec (toLimbs k r.2.1), natTok r.2.2]
       else none
   | "bi_itch", [.num n] =>
       if n ≥ 1 then some [natTok (binvItch nextSize n.toNat)] else none
